@@ -30,6 +30,9 @@ type c01Msg struct {
 	// is queued on the same channel and flushed with an already cancelled context; the flush must fail, write
 	// nothing, and leave nothing behind for the message proper.
 	Abort int `json:"abort,omitempty"`
+	// AbortKind: "" = flush with a cancelled context; "queue-dead" = the package is QUEUED with a cancelled
+	// context (must fail and leave nothing behind); "reset" = queued normally, then Channel.Reset().
+	AbortKind string `json:"abort_kind,omitempty"`
 }
 
 type c01Plan struct {
@@ -132,6 +135,7 @@ func (c01) Gen(r *Rand, idx int, tier string) interface{} {
 		m.OnZero = p.Both && r.Bool()
 		if r.Pct(15) {
 			m.Abort = 1 + r.Intn(body-1)
+			m.AbortKind = Pick(r, []string{"", "", "queue-dead", "reset"})
 		}
 		if len(m.Pkgs) == 1 && r.Pct(60) {
 			m.Split = "send"
@@ -329,10 +333,22 @@ func (c01) Run(plan interface{}, schedSeed uint64, replay []simrt.Choice, lenien
 				kill()
 				t := tds.NewTokenlessPackage()
 				t.Data = bytes.NewBuffer(bytes.Repeat([]byte{0x5a}, m.Abort))
-				if err := ch.QueuePackage(ctx, t); err != nil {
-					sendErrs = append(sendErrs, fmt.Sprintf("message %d: queueing the package to be abandoned: %v", mi, err))
-				} else if err := ch.SendRemainingPackets(dead); err == nil {
-					aborted = append(aborted, fmt.Sprintf("message %d: a flush with a cancelled context reported success", mi))
+				switch m.AbortKind {
+				case "queue-dead":
+					if err := ch.QueuePackage(dead, t); err == nil {
+						aborted = append(aborted, fmt.Sprintf("message %d: QueuePackage with a cancelled context reported success", mi))
+					}
+				case "reset":
+					if err := ch.QueuePackage(ctx, t); err != nil {
+						sendErrs = append(sendErrs, fmt.Sprintf("message %d: queueing the package to be abandoned: %v", mi, err))
+					}
+					ch.Reset()
+				default:
+					if err := ch.QueuePackage(ctx, t); err != nil {
+						sendErrs = append(sendErrs, fmt.Sprintf("message %d: queueing the package to be abandoned: %v", mi, err))
+					} else if err := ch.SendRemainingPackets(dead); err == nil {
+						aborted = append(aborted, fmt.Sprintf("message %d: a flush with a cancelled context reported success", mi))
+					}
 				}
 				ch.CurrentHeaderType = tds.PacketHeaderType(m.HeaderType)
 			}
@@ -417,7 +433,7 @@ func (c01) Run(plan interface{}, schedSeed uint64, replay []simrt.Choice, lenien
 		if d >= -2 && d <= 2 {
 			cls = fmt.Sprintf("d=%+d", d)
 		}
-		where := fmt.Sprintf("message %d (total %d bytes = %d*%d%+d, packet size %d, header type %d, split %s, packages %v, abandoned before: %d bytes)", mi, T, (T+body/2)/body, body, d, ps, m.HeaderType, m.Split, m.Pkgs, m.Abort)
+		where := fmt.Sprintf("message %d (total %d bytes = %d*%d%+d, packet size %d, header type %d, split %s, packages %v, abandoned before: %d bytes %s)", mi, T, (T+body/2)/body, body, d, ps, m.HeaderType, m.Split, m.Pkgs, m.Abort, m.AbortKind)
 		sigB := "boundary " + cls
 		if sizesSeen[mi] != ps {
 			v.Violate("packet-size", "announced packet size not in force", "%s: the client's packet size is %d, the server announced %d", where, sizesSeen[mi], ps)
